@@ -8,6 +8,7 @@ import random
 
 from vf import diff
 from vf import stream
+from vf.gen import closures
 from vf.gen import grammar
 from vf.gen import skeleton
 from vf.mon import tracing
@@ -36,6 +37,7 @@ def plan(tier, seed):
   for k in range(16):
     specs.append({'kind': 'skeleton', 'seed': seed, 'slice': k, 'parts': 16, 'tier': tier,
                   'hashseed': (seed * 16 + k + 5) % 4294967295})
+  specs.append({'kind': 'closures', 'seed': seed, 'hashseed': seed % 4294967295})
   return specs
 
 
@@ -153,6 +155,16 @@ def run_slice(spec):
       if out['verdict'] == 'ok' and i % 10 == 2:
         out['sample'] = {'case': cid, 'inputs': inputs[:2], 'traced': {k: v for k, v in out['counters'].items()},
                          'state_tuples': smp, 'program': stream.body_of(src)[:1500]}
+      yield out
+  elif spec['kind'] == 'closures':
+    for cid, src, inputs in closures.cases(pure=True):
+      if '/lambda/' in cid:
+        continue
+      out = judge('C02' + cid, src, inputs, reduce=False)
+      out.pop('samples', None)
+      out['counters']['closure_programs'] = 1
+      if out['verdict'] == 'ok':
+        out['sig'] = cid
       yield out
   else:
     for cid, src, inputs in skeleton.cases(spec['seed'], spec['slice'], spec['parts'], spec['tier'], pure=True,
